@@ -32,6 +32,8 @@ def main():
             mod.replay(ctx, args.replay)
         else:
             mod.run(ctx)
+            from . import trcheck
+            trcheck.run_for_property(ctx)
     except core.Timeout:
         print('machinery timeout', file=sys.stderr)
         sys.exit(2)
